@@ -1,7 +1,145 @@
 import PydlVerif.Model.JsonUtil
+import PydlVerif.Model.YannyLayout
+import PydlVerif.Driver.C01
 open Lean
 namespace PydlVerif.Driver.C02
+open PydlVerif PydlVerif.Yanny PydlVerif.Driver.C01
 
-def handle (_j : Json) : Except String Json := throw "C02: no model operations yet"
+/-! JSON codecs of layouts (see harness/props/c02.py, `lay_json`). -/
+
+def jbool (j : Json) : Except String Bool := J.bool j
+
+def jsep (j : Json) : Except String Sep := do
+  match ← J.arr j with
+  | #[a, c] =>
+    if c.isNull then pure ⟨← js a, none⟩ else
+    match ← J.arr c with
+    | #[b, crlf, c2] => pure ⟨← js a, some (← js b, ← jbool crlf, ← js c2)⟩
+    | _ => throw "sep.cont: [b, crlf, c]"
+  | _ => throw "sep: [a, cont]"
+
+def jq (j : Json) : Except String QStyle :=
+  match j with
+  | Json.arr #[p] => do pure (.braced (← js p))
+  | _ => do
+    let n ← J.nat j
+    pure (if n == 0 then .bare else .quoted)
+
+def jcellLay (j : Json) : Except String CellLay := do
+  match j.getObjVal? "op" with
+  | .ok op =>
+    let rest ← J.list (fun e => do
+      match ← J.arr e with
+      | #[s, q] => pure (← jsep s, ← jq q)
+      | _ => throw "elem: [sep, q]") (← J.fld j "rest")
+    pure (.many (← js op) (← jq (← J.fld j "q")) rest (← js (← J.fld j "cl")))
+  | .error _ => pure (.one (← jq (← J.fld j "q")))
+
+def jcomment (j : Json) (k : String) : Except String (Option Str) := J.fOpt js j k
+
+def jrowLay (j : Json) : Except String RowLay := do
+  let cells ← J.list (fun e => do
+    match ← J.arr e with
+    | #[s, c] => pure (← jsep s, ← jcellLay c)
+    | _ => throw "cell: [sep, lay]") (← J.fld j "cells")
+  pure ⟨← js (← J.fld j "lead"), ← js (← J.fld j "name"), cells, ← js (← J.fld j "trail"),
+        ← jcomment j "comment", ← J.fBool j "crlf"⟩
+
+def jpairLay (j : Json) : Except String PairLay := do
+  pure ⟨← js (← J.fld j "lead"), ← jsep (← J.fld j "sep"), ← js (← J.fld j "trail"),
+        ← jcomment j "comment", ← J.fBool j "crlf"⟩
+
+def jcolLay (j : Json) : Except String ColLay := do
+  pure ⟨← js (← J.fld j "pre"), ← js (← J.fld j "gap"), ← J.fBool j "l1", ← J.fBool j "l2", ← J.fBool j "unsized"⟩
+
+def jstructLay (j : Json) : Except String StructLay := do
+  pure ⟨← js (← J.fld j "lead"), ← js (← J.fld j "g1"), ← js (← J.fld j "g2"),
+        ← J.list jcolLay (← J.fld j "cols"), ← js (← J.fld j "closePre"), ← js (← J.fld j "g3"),
+        ← js (← J.fld j "name"), ← js (← J.fld j "g4"), ← js (← J.fld j "trail"),
+        ← jcomment j "comment", ← J.fBool j "crlf"⟩
+
+def jenumLay (j : Json) : Except String EnumLay := do
+  pure ⟨← js (← J.fld j "lead"), ← js (← J.fld j "g1"), ← js (← J.fld j "g2"), ← js (← J.fld j "op"),
+        ← J.list js (← J.fld j "afterComma"), ← js (← J.fld j "cl"), ← js (← J.fld j "g3"),
+        ← js (← J.fld j "g4"), ← js (← J.fld j "trail"), ← jcomment j "comment", ← J.fBool j "crlf"⟩
+
+def jslot (j : Json) : Except String Slot := do
+  let k ← J.fStr j "k"
+  match k with
+  | "pair" => pure (.pair (← jpairLay j))
+  | "row" => pure (.row (← J.fNat j "t") (← jrowLay j))
+  | "sdef" => pure (.sdef (← jstructLay j))
+  | "edef" => pure (.edef (← jenumLay j))
+  | "filler" => pure (.filler (← js (← J.fld j "text")) (← J.fBool j "crlf"))
+  | _ => throw s!"slot kind {k}"
+
+def jlayout (j : Json) : Except String Layout := do
+  pure ⟨← J.list jslot (← J.fld j "slots"), ← J.fBool j "finalEol"⟩
+
+def optJ {α} (f : α → Json) : Option α → Json
+  | some v => f v
+  | none => Json.null
+
+def rawJ (r : RawParsed Str) : Json :=
+  Json.mkObj [
+    ("pairs", J.ofList (fun kv => Json.arr #[sj kv.1, sj kv.2]) r.pairs),
+    ("tables", J.ofList (fun t =>
+      let rows := match r.rows.find? (fun e => e.1 == t.1) with
+        | some e => e.2
+        | none => []
+      Json.mkObj [("name", sj t.1),
+        ("cols", J.ofList (fun c => Json.arr #[sj c.1, J.ofList cellJ c.2]) (rawColumns t.2 rows))])
+      r.front.tables)]
+
+/-- everything the harness compares for one text -/
+def parseAll (t : Str) : Json :=
+  let fr := front t
+  Json.mkObj [
+    ("parsed", exJ parsedJ (parseFile2 ioText t)),
+    ("parsedOld", exJ parsedJ (parseFile ioText t)),
+    ("parsedOldS", exJ parsedJ (parseFileS selectDef ioText t)),
+    ("raw", exJ rawJ (parseRaw2 ioText t)),
+    ("structs", J.ofList (fun d => sj d.text) fr.structs),
+    ("enums", J.ofList (fun d => sj d.text) fr.enums),
+    ("symbols", J.ofList (fun t => Json.arr #[sj t.1, J.ofList sj t.2]) fr.tables)]
+
+def handle (j : Json) : Except String Json := do
+  let op ← J.fStr j "op"
+  match op with
+  | "lay" =>
+    -- render document × layout, parse the rendering (as read in binary and in text mode)
+    let d ← jdoc (← J.fld j "doc")
+    let lay ← jlayout (← J.fld j "lay")
+    let ok := docOK2 d && layoutOK ioText d lay
+    match renders ioText d lay with
+    | none => pure (Json.mkObj [("text", Json.null), ("ok", Json.bool ok)])
+    | some t =>
+      let tn := univNl t
+      pure (Json.mkObj [("text", sj t), ("ok", Json.bool ok),
+        ("logical", optJ sj (rendersLogical ioText d lay)),
+        ("canon", parsedJ (canon d)),
+        ("bin", parseAll t),
+        ("txt", if tn == t then Json.null else parseAll tn),
+        ("univ", sj tn)])
+  | "parse" =>
+    let t ← js (← J.fld j "text")
+    pure (parseAll t)
+  | "sel" =>
+    -- which typedef text `type()` selects: before and after the fix
+    let structs ← J.list js (← J.fld j "structs")
+    let table ← js (← J.fld j "table")
+    pure (Json.mkObj [("old", optJ sj (selectDefOld structs table)), ("new", optJ sj (selectDef2 structs table)),
+                      ("names", J.ofList (fun s => optJ sj (tdNameOf s)) structs)])
+  | "qtok" =>
+    -- token written in style q, followed by a separator and more text
+    let items ← J.list (fun e => do
+      pure (← jq (← J.fld e "q"), ← js (← J.fld e "s"), ← js (← J.fld e "tail"))) (← J.fld j "items")
+    pure (J.ofList (fun (q, s, tail) => Json.mkObj [
+      ("text", sj (quoteTok q s ++ tail)), ("legal", Json.bool (tokLegal q s)), ("elegal", Json.bool (elemLegal q s)),
+      ("token", tokJ (getToken (quoteTok q s ++ tail)))]) items)
+  | "tc" =>
+    let ss ← J.list js (← J.fld j "s")
+    pure (J.ofList (fun s => sj (trailingComment s)) ss)
+  | _ => throw s!"C02: unknown op {op}"
 
 end PydlVerif.Driver.C02
